@@ -1,6 +1,7 @@
 import GluonModel.Sexp
 import GluonModel.ParOnce
 import GluonModel.ParLocks
+import GluonModel.ParIntern
 open GluonModel GluonModel.ParOnce GluonModel.ParLocks
 
 /-! Driver for C14: runs the `Once` cells on the event schedule of a `par` case and the exhaustive
@@ -62,6 +63,13 @@ def handle : List Sexp → String
     | some n, some ops =>
       if canDeadlock (scenSys n ops) then "(deadlock true)" else "(deadlock false)"
     | _, _ => "bad-request"
+  | [.atom "fresh", n, r, f, k, b] =>
+    match n.toNat?, r.toNat?, f.toNat?, k.toNat?, b.toNat? with
+    | some n, some r, some f, some k, some b =>
+      let o := GluonModel.ParIntern.runFresh n r f k b
+      "(fresh (ok " ++ toString o.ok ++ ") (maxreps " ++ toString o.maxreps ++ ") (checksum " ++
+        toString o.checksum ++ "))"
+    | _, _, _, _, _ => "bad-request"
   | _ => "bad-request"
 
 def main : IO Unit := driverLoop handle
